@@ -590,18 +590,32 @@ func (w *World) isHeaderCell(target string) bool {
 }
 
 // expectedRenderPass is the reference traversal of one render pass.
+//
+// The statement orders the LISTS ("table, columns, then per row the row itself
+// and per cell the pre-cell callbacks of table, column and row, ...").  It does
+// not order the columns among themselves, nor the callbacks registered in one
+// and the same list: the events of one such slot are compared as a multiset
+// (w.passSlot gives the slot of every expected event).
 func (w *World) expectedRenderPass() []cbExpect {
 	var out []cbExpect
-	add := func(cbs []*SimCallback, target string) {
+	w.passSlot = w.passSlot[:0]
+	slot := 0
+	addTo := func(cbs []*SimCallback, target string) {
 		for _, cb := range cbs {
 			out = append(out, cbExpect{cb.id, target})
+			w.passSlot = append(w.passSlot, slot)
 		}
+	}
+	add := func(cbs []*SimCallback, target string) {
+		slot++
+		addTo(cbs, target)
 	}
 	nc := w.Core.NColumns()
 	add(w.regsAt(ownTable, 1, 0, nil), "T")
+	slot++
 	for n := 0; n <= nc; n++ {
 		nn := n
-		add(w.regsAt(ownColumn, 1, 0, func(cb *SimCallback) bool { return cb.col == nn }), "K"+strconv.Itoa(n))
+		addTo(w.regsAt(ownColumn, 1, 0, func(cb *SimCallback) bool { return cb.col == nn }), "K"+strconv.Itoa(n))
 	}
 	rows := []*mRow{}
 	if w.headerSet {
@@ -631,9 +645,10 @@ func (w *World) expectedRenderPass() []cbExpect {
 		}
 		add(w.regsAt(ownRow, 3, 0, isRow), rowName(mr))
 	}
+	slot++
 	for n := 0; n <= nc; n++ {
 		nn := n
-		add(w.regsAt(ownColumn, 3, 0, func(cb *SimCallback) bool { return cb.col == nn }), "K"+strconv.Itoa(n))
+		addTo(w.regsAt(ownColumn, 3, 0, func(cb *SimCallback) bool { return cb.col == nn }), "K"+strconv.Itoa(n))
 	}
 	add(w.regsAt(ownTable, 3, 0, nil), "T")
 	return out
@@ -720,19 +735,49 @@ func (w *World) CheckC13(op string) *Violation {
 	}
 	if phase == "render" {
 		exp := w.passExpected
-		for i := 0; i < len(exp) || i < len(listedEv); i++ {
-			if i >= len(listedEv) {
-				cb := w.regByID(exp[i].reg)
-				return v("missing:"+ownNames[cb.owner]+"/"+timeNames[cb.time]+"/"+targetNames[cb.target], "render pass ended after %d listed events; expected next cb#%d on %s", len(listedEv), exp[i].reg, exp[i].target)
+		slotOf := func(i int) int {
+			if i < len(w.passSlot) {
+				return w.passSlot[i]
 			}
-			if i >= len(exp) {
-				cb := w.regByID(listedEv[i].reg)
-				return v("extra:"+ownNames[cb.owner]+"/"+timeNames[cb.time]+"/"+targetNames[cb.target], "unexpected event %v after the %d expected ones", listedEv[i], len(exp))
+			return -1 - i // (no slot information: every event is a slot of its own)
+		}
+		for a := 0; a < len(exp) || a < len(listedEv); {
+			if a >= len(exp) {
+				cb := w.regByID(listedEv[a].reg)
+				return v("extra:"+ownNames[cb.owner]+"/"+timeNames[cb.time]+"/"+targetNames[cb.target], "unexpected event %v after the %d expected ones", listedEv[a], len(exp))
 			}
-			if exp[i].reg != listedEv[i].reg || exp[i].target != listedEv[i].target {
-				cb := w.regByID(exp[i].reg)
-				return v("order:"+ownNames[cb.owner]+"/"+timeNames[cb.time]+"/"+targetNames[cb.target], "event %d of the pass is %v; the documented order has cb#%d on %s here", i, listedEv[i], exp[i].reg, exp[i].target)
+			b := a
+			for b < len(exp) && slotOf(b) == slotOf(a) {
+				b++
 			}
+			// the events a..b-1 of the pass are those of one slot, in any order
+			remaining := map[cbExpect]int{}
+			for _, e := range exp[a:b] {
+				remaining[e]++
+			}
+			firstRemaining := func() cbExpect {
+				for _, e := range exp[a:b] {
+					if remaining[e] > 0 {
+						return e
+					}
+				}
+				return exp[a]
+			}
+			for i := a; i < b; i++ {
+				if i >= len(listedEv) {
+					e := firstRemaining()
+					cb := w.regByID(e.reg)
+					return v("missing:"+ownNames[cb.owner]+"/"+timeNames[cb.time]+"/"+targetNames[cb.target], "render pass ended after %d listed events; expected next cb#%d on %s", len(listedEv), e.reg, e.target)
+				}
+				got := cbExpect{listedEv[i].reg, listedEv[i].target}
+				if remaining[got] == 0 {
+					e := firstRemaining()
+					cb := w.regByID(e.reg)
+					return v("order:"+ownNames[cb.owner]+"/"+timeNames[cb.time]+"/"+targetNames[cb.target], "event %d of the pass is %v; the documented order has cb#%d on %s here (or another callback of the same list)", i, listedEv[i], e.reg, e.target)
+				}
+				remaining[got]--
+			}
+			a = b
 		}
 	} else {
 		for _, e := range w.expAdd {
